@@ -137,12 +137,29 @@ class Report:
                     o.why = f"not decided - the analysis met values it does not model [{what}], so this mismatch may be the analyser's, not the code's. Finding as derived: {o.why}"
             self.notes.append(f"opaque values in analysed outcomes: {what}")
         # hazards named by the interpreter (see terms.HAZARDS)
+        shared = [(what, why) for (kind, what), why in sorted(T.HAZARDS.items()) if kind == "SHARED"]
+        if shared:
+            # the shared container was analysed as "content unknown": value-based mismatches derived from it are the
+            # analyser's; the sharing itself is reported below (as a violation by properties that claim per-instance state)
+            for o in self.obligations:
+                if o.verdict == VIOLATED and o.rule not in self.structural:
+                    o.verdict = UNDECIDED
+                    o.why = f"not decided - derived with a class-level container shared by all instances ({shared[0][0]}) whose content is unknown to the analysis. Finding as derived: {o.why}"
         for (kind, what), why in sorted(T.HAZARDS.items()):
             if kind == "ONESHOT":
                 # a defect whatever the property: state shared between calls that the first call destroys
-                self.rules.setdefault("ENGINE-ONESHOT", "no function on the analysed paths consumes a module-level one-shot iterator")
+                self.rules.setdefault("ENGINE-ONESHOT", "no function on the analysed paths consumes a module-level or class-level one-shot iterator")
                 self.structural.add("ENGINE-ONESHOT")
                 self.obligations.append(Obligation("ENGINE-ONESHOT", what, what, VIOLATED, why, f"ENGINE-ONESHOT|{what}", {}))
+            elif kind == "SHARED" and getattr(self, "claims_instance_state", None):
+                rid = self.claims_instance_state
+                self.structural.add(rid)
+                self.obligations.append(Obligation(rid, what, what, VIOLATED, why, f"{rid}|shared|{what}", {}))
+            elif kind == "SHARED" and not any(o.verdict == VIOLATED for o in self.obligations):
+                # the analysis starts every call from "whatever is in there": sound, but the values then depend on other
+                # instances; a rule that claims per-instance state reports it itself (C15 R15.6)
+                self.rules.setdefault("ENGINE-SHARED", "no class-level container that is mutated in place is read on the analysed paths unless a rule of this property judges the sharing")
+                self.obligations.append(Obligation("ENGINE-SHARED", what, what, UNDECIDED, why, "", {}))
             elif kind == "CACHED" and not any(o.verdict == VIOLATED for o in self.obligations):
                 self.rules.setdefault("ENGINE-CACHED", "no memoised repository function is inlined unless a rule of this property judges the memoisation")
                 self.obligations.append(Obligation("ENGINE-CACHED", what, what, UNDECIDED, why, "", {}))
